@@ -155,3 +155,16 @@ def c14Diagnosed (env : Env) (f0 : Uid → Fields) (fwd : Bool) (r : Res Output)
   !c14MustDiagnose env f0 fwd || (match r with | .error .runtime => true | _ => false)
 
 end Pj
+
+namespace Pj
+
+/-- the parent pointer of a member agrees with the children lists: its parent is a member that lists it as a child
+    (what C01's `listed` clause gives for every reachable graph) -/
+def Env.parentsOK (env : Env) : Prop :=
+  ∀ t p, t ∈ memberList env → (env.info t).parent = some p → p ∈ memberList env ∧ t ∈ (env.info p).children
+
+/-- dependency links are stored on both ends (C01's `sym` clause) -/
+def Env.linksSym (env : Env) : Prop :=
+  ∀ a b, a ∈ (env.info b).preds ↔ b ∈ (env.info a).succs
+
+end Pj
